@@ -316,8 +316,7 @@ def do_schema(job):
         signal.alarm(0)
     headers = [o for o in outs if o.endswith(".h")]
     csrcs = [o for o in outs if o.endswith(".c")]
-    if job.get("want_generated"):
-        res["generated"] = {os.path.basename(o): open(o).read() for o in outs}
+    res["generated"] = {os.path.basename(o): open(o).read() for o in outs}
     lay_src, lay_keys = layout_source(job, headers)
     top = job["top"]
     topname = top[1]
